@@ -142,9 +142,14 @@ class TreeLookup(Contract):
                        "adjustment": "int"}
         super().__init__()
 
-    def selects(self, self_cls, args):
+    def selects(self, self_cls, args, kwargs=None):
         # chosen by tree element class, getter and kind of addrs
-        return False
+        kwargs = kwargs or {}
+        tree, addrs = args[0], args[1]
+        getter = kwargs.get(self.getter_param)
+        gname = getter.x[0].qual if getter is not None and getter.k == "func" else None
+        want = "_offset_interval" if self.flavour == "block_off" else "_address_interval"
+        return tree.x == self.elem and addrs.k == self.addr_kind and gname == want
 
     # tree-side low bound and query-side low bound of element n
     def tree_iv(self, c, n):
